@@ -43,6 +43,8 @@ type genSvc struct {
 	Methods  []genMethod `json:"methods"`
 	Reserved string      `json:"reserved"`
 	Nsvc     int         `json:"nsvc"`
+	Ext      string      `json:"ext"`
+	Naming   string      `json:"naming"`
 	Verdict  string      `json:"verdict"`
 }
 
@@ -79,6 +81,43 @@ func genMethodOptions(m genMethod) *descriptorpb.MethodOptions {
 	return o
 }
 
+// rpcNames gives the name of method k as written in the proto file under the
+// naming style, and the Go name protoc-gen-go derives from it (GoCamelCase).
+func rpcNames(naming string, k int) (protoName, goName string) {
+	switch naming {
+	case "lowerCamel":
+		return fmt.Sprintf("m%dCall", k), fmt.Sprintf("M%dCall", k)
+	case "snake":
+		return fmt.Sprintf("m%d_call", k), fmt.Sprintf("M%dCall", k)
+	case "lower":
+		return fmt.Sprintf("m%d", k), fmt.Sprintf("M%d", k)
+	}
+	return fmt.Sprintf("M%d", k), fmt.Sprintf("M%d", k)
+}
+
+func usesExt(s genSvc) bool {
+	for _, m := range s.Methods {
+		if m.Io == "extin" || m.Io == "extout" {
+			return true
+		}
+	}
+	return false
+}
+
+// genExtFile builds the descriptor of the file a service definition imports a
+// message from; its Go package is named s.Ext.
+func genExtFile(i int, s genSvc) *descriptorpb.FileDescriptorProto {
+	return &descriptorpb.FileDescriptorProto{
+		Name:    proto.String(fmt.Sprintf("s%dx.proto", i)),
+		Package: proto.String(fmt.Sprintf("s%dx", i)),
+		Syntax:  proto.String("proto3"),
+		Options: &descriptorpb.FileOptions{GoPackage: proto.String(fmt.Sprintf("genmod/s%dx/%s;%s", i, s.Ext, s.Ext))},
+		MessageType: []*descriptorpb.DescriptorProto{
+			{Name: proto.String("Msg"), Field: []*descriptorpb.FieldDescriptorProto{genField("x", 1)}},
+		},
+	}
+}
+
 // genFile builds the descriptor of service definition i.
 func genFile(i int, s genSvc) *descriptorpb.FileDescriptorProto {
 	pkg := fmt.Sprintf("s%d", i)
@@ -106,9 +145,14 @@ func genFile(i int, s genSvc) *descriptorpb.FileDescriptorProto {
 			in = ".google.protobuf.Empty"
 		case "emptyout":
 			out = ".google.protobuf.Empty"
+		case "extin":
+			in = "." + pkg + "x.Msg"
+		case "extout":
+			out = "." + pkg + "x.Msg"
 		}
+		protoName, _ := rpcNames(s.Naming, k+1)
 		md := &descriptorpb.MethodDescriptorProto{
-			Name: proto.String(fmt.Sprintf("M%d", k+1)), InputType: proto.String(in), OutputType: proto.String(out),
+			Name: proto.String(protoName), InputType: proto.String(in), OutputType: proto.String(out),
 			Options: genMethodOptions(m),
 		}
 		if m.Cs {
@@ -120,6 +164,9 @@ func genFile(i int, s genSvc) *descriptorpb.FileDescriptorProto {
 		svc.Method = append(svc.Method, md)
 	}
 	fd.Service = []*descriptorpb.ServiceDescriptorProto{svc}
+	if usesExt(s) {
+		fd.Dependency = append(fd.Dependency, pkg+"x.proto")
+	}
 	if s.Nsvc == 2 {
 		o := &descriptorpb.MethodOptions{}
 		proto.SetExtension(o, gorums.E_Quorumcall, true)
@@ -379,8 +426,17 @@ func cmdGen(args []string) error {
 			defer wg.Done()
 			defer func() { <-sem }()
 			fd := genFile(i, all[i])
+			protoFiles := append([]*descriptorpb.FileDescriptorProto{}, deps...)
+			var xb []byte
+			if usesExt(all[i]) {
+				xfd := genExtFile(i, all[i])
+				protoFiles = append(protoFiles, xfd)
+				xreq := &pluginpb.CodeGeneratorRequest{FileToGenerate: []string{xfd.GetName()}, Parameter: proto.String("paths=source_relative"),
+					ProtoFile: protoFiles}
+				xb, _ = proto.Marshal(xreq)
+			}
 			req := &pluginpb.CodeGeneratorRequest{FileToGenerate: []string{fd.GetName()}, Parameter: proto.String("paths=source_relative"),
-				ProtoFile: append(append([]*descriptorpb.FileDescriptorProto{}, deps...), fd)}
+				ProtoFile: append(protoFiles, fd)}
 			b, _ := proto.Marshal(req)
 			runs := []pluginRun{runPluginOnce(*plugin, b, ""), runPluginOnce(*plugin, b, ""), runPluginOnce(*plugin, b, "")}
 			r0 := runs[0]
@@ -402,6 +458,13 @@ func cmdGen(args []string) error {
 				g := runPluginOnce(*genGo, b, "")
 				for name, content := range g.files {
 					os.WriteFile(filepath.Join(dir, filepath.Base(name)), []byte(content), 0o644)
+				}
+				if xb != nil {
+					xdir := filepath.Join(*moddir, fmt.Sprintf("s%dx", i), all[i].Ext)
+					os.MkdirAll(xdir, 0o755)
+					for name, content := range runPluginOnce(*genGo, xb, "").files {
+						os.WriteFile(filepath.Join(xdir, filepath.Base(name)), []byte(content), 0o644)
+					}
 				}
 				if bd, err := extractBindings(gorumsOut); err == nil {
 					res.bindings = bd
@@ -447,14 +510,14 @@ func cmdGen(args []string) error {
 		enc.Encode(map[string]interface{}{"ev": "Svc", "c": c, "i": i, "svc": s, "o": r.o, "msg": r.stderr})
 		if s.Verdict == "accept" && r.bindings != nil {
 			for k, m := range s.Methods {
-				goname := fmt.Sprintf("M%d", k+1)
+				protoName, goname := rpcNames(s.Naming, k+1)
 				b, ok := r.bindings[goname]
 				if !ok {
 					b = map[string]interface{}{"recv": "", "entry": "", "method": "", "sstream": false, "pernode": false, "qf": "", "registered": "", "server": ""}
 				}
 				c++
 				nb++
-				enc.Encode(map[string]interface{}{"ev": "Bind", "c": c, "i": i, "m": m, "full": fmt.Sprintf("s%d.Svc.%s", i, goname), "goname": goname, "b": b})
+				enc.Encode(map[string]interface{}{"ev": "Bind", "c": c, "i": i, "m": m, "full": fmt.Sprintf("s%d.Svc.%s", i, protoName), "goname": goname, "naming": s.Naming, "svc": s, "b": b})
 			}
 		}
 	}
